@@ -235,6 +235,30 @@ class Prover:
         # x % b < b for unsigned nonzero b
         if a.op == "bin" and a.args[0] == "Rem" and a.args[2] is b and self.unsigned(a):
             return True
+        # x - c < x  for unsigned x >= c >= 1 (no wrap)
+        if a.op == "proj" and a.args[1][:2] == ("f", 0) and a.args[0].op == "bin" and a.args[0].args[0] in ("SubWithOverflow", "Sub") \
+                and a.args[0].args[1] is b and a.args[0].args[2].op == "const" and a.args[0].args[2].args[1] >= 1 and self.unsigned(b):
+            if self.lb(b, facts) >= a.args[0].args[2].args[1]:
+                return True
+        if a.op == "bin" and a.args[0] == "Sub" and a.args[1] is b and a.args[2].op == "const" and a.args[2].args[1] >= 1 and self.unsigned(b):
+            if self.lb(b, facts) >= a.args[2].args[1]:
+                return True
+        # monotone cursor idioms (unsigned): a <= x  =>  a < x + c (c > 0, addition known not to wrap), a < adv(x),
+        # a <= checked_add(x, y)!Some ; strict when a < x or y != 0
+        if b.op == "adv" and self.le(a, b.args[0], facts):
+            return True
+        if b.op == "bin" and b.args[0] == "Add" and b in self.an.prog.noovf:
+            for x, c in ((b.args[1], b.args[2]), (b.args[2], b.args[1])):
+                if self.le(a, x, facts) and (self.lb(c, facts) >= 1):
+                    return True
+                if self.lt(a, x, facts):
+                    return True
+        if b.op == "payload" and b.args[1] == "Some" and b.args[0].op == "call" and b.args[0].args[0].endswith("::checked_add"):
+            x, y = b.args[0].args[2]
+            if self.lt(a, x, facts) or self.lt(a, y, facts):
+                return True
+            if (self.le(a, x, facts) and self.nonzero(y, facts)) or (self.le(a, y, facts) and self.nonzero(x, facts)):
+                return True
         # position of the first match in a slice is an index into it
         if a.op == "payload" and a.args[1] == "Some" and a.args[0].op == "call" and a.args[0].args[0] in ("slice::position", "slice::rposition"):
             s = a.args[0].args[2][0]
@@ -250,6 +274,12 @@ class Prover:
         if self.lt(a, b, facts):
             return True
         if self._fact_cmp(facts, "Le", a, b, True) or self._fact_cmp(facts, "Lt", b, a, False):
+            return True
+        if b.op == "payload" and b.args[1] == "Some" and b.args[0].op == "call" and b.args[0].args[0].endswith("::checked_add"):
+            x, y = b.args[0].args[2]
+            if self.le(a, x, facts) or self.le(a, y, facts):
+                return True
+        if b.op == "bin" and b.args[0] == "Add" and b in self.an.prog.noovf and (self.le(a, b.args[1], facts) or self.le(a, b.args[2], facts)):
             return True
         ua, lb_ = self.ub(a, facts), self.lb(b, facts)
         if ua is not None and lb_ is not None and ua <= lb_:
